@@ -59,15 +59,15 @@ IsDecimal(s) == LET n == Len(s)
 RECURSIVE Skip(_, _, _)
 Skip(s, i, S) == IF i <= Len(s) /\ s[i] \in S THEN Skip(s, i + 1, S) ELSE i   \* first index >= i not in S
 NoParse == [len |-> 0]
-Scan(s) ==
+ScanW(s, W) ==
   LET n  == Len(s)
       p1 == IF 1 <= n /\ s[1] \in Sign THEN 2 ELSE 1
       p2 == Skip(s, p1, Digit)
       p3 == IF p2 <= n /\ s[p2] = Dot THEN Skip(s, p2 + 1, Digit) ELSE p2
       ip == SubSeq(s, p1, p2 - 1)
       fp == SubSeq(s, p2 + 1, p3 - 1)
-      w1 == Skip(s, p3, WS)
-      w2 == Skip(s, w1 + 1, WS)
+      w1 == Skip(s, p3, W)
+      w2 == Skip(s, w1 + 1, W)
       e1 == IF w2 <= n /\ s[w2] \in Sign THEN w2 + 1 ELSE w2
       e2 == Skip(s, e1, Digit)
       hasExp == w1 <= n /\ s[w1] \in ExpCh /\ e2 > e1
@@ -80,7 +80,10 @@ Scan(s) ==
            ws2 |-> IF hasExp THEN SubSeq(s, w1 + 1, w2 - 1) ELSE <<>>,
            eneg |-> hasExp /\ e1 > w2 /\ s[w2] = 45, esigned |-> hasExp /\ e1 > w2,
            ed |-> IF hasExp THEN SubSeq(s, e1, e2 - 1) ELSE <<>>]
+Scan(s)  == ScanW(s, WS)
 Parse(s) == Scan(s)                     \* of a literal: Scan(s).len = Len(s)
+(* a conversion that does not know the white space of 7.7.2.2 (C strtod on the token start) *)
+ScanNoWs(s) == ScanW(s, {})
 
 (* Denotation: exact triple.  Exponent digit strings with more than 6       *)
 (* significant digits (|exp| >= 10^6, far outside 488.2's 32000) are flagged *)
@@ -153,11 +156,13 @@ IntExpect(k, neg, a) == IF InRange(k, neg, a) THEN N!Encode(neg, a, KLimbs(k)) E
 Split(t) == LET p == Scan(t)
                 k == Skip(t, p.len + 1, WS)
             IN [num |-> SubSeq(t, 1, p.len), sep |-> SubSeq(t, p.len + 1, k - 1), suffix |-> SubSeq(t, k, Len(t))]
-UnitIdx(suffix) == {i \in 1..Len(UnitRows) : UnitRows[i].name = UpperSeq(suffix)}
+UnitNames  == {UnitRows[i].name : i \in 1..Len(UnitRows)}
+UnitByName == [nm \in UnitNames |-> {i \in 1..Len(UnitRows) : UnitRows[i].name = nm}]      \* constant, evaluated once
+UnitIdx(suffix) == LET u == UpperSeq(suffix) IN IF u \in UnitNames THEN UnitByName[u] ELSE {}
 (* special mnemonics: the upper-case prefix of the pattern is the short form *)
 ShortForm(pat) == SubSeq(pat, 1, Skip(pat, 1, Upper) - 1)
 LongForm(pat)  == UpperSeq(pat)
-SpecialIdx(tok) == {i \in 1..Len(SpecialRows) : UpperSeq(tok) \in {ShortForm(SpecialRows[i].pat), LongForm(SpecialRows[i].pat)}}
+SpecialIdx(tok) == LET u == UpperSeq(tok) IN {i \in 1..Len(SpecialRows) : u \in {ShortForm(SpecialRows[i].pat), LongForm(SpecialRows[i].pat)}}
 IsMnemonic(s) == Len(s) > 0 /\ s[1] \in Alpha /\ AllIn(s, 2, Len(s), Alpha \cup Digit \cup {95})
 
 (* What the bytes of one parameter denote *)
